@@ -25,6 +25,13 @@ THEOREMS = [
     "C12_connect_idempotent",
     "C12_step_current",
     "C12_history_current",
+    "C12_seat_keeps_invariant",
+    "C12_seat_exact",
+    "C12_replace_keeps_invariant",
+    "C12_replace_refused_noop",
+    "C12_flow_derivation",
+    "C12_firing_order",
+    "C12_ditch_without_disconnect_witness",
     "C12_unguarded_is_atomic",
     "C12_disconnect_half_iff",
     "C12_disconnect_torn_state",
@@ -53,18 +60,27 @@ RULE = (
     "between any two owners; remove_child; add_child; replace_child; run; pull) with nodes idle, failed and in "
     "flight on a controllable executor; families: general, owner-level, multi-panel copies with a refusal in "
     "every panel position and every pre-existing-connection configuration, editing around running nodes, "
-    "injected per-channel refusals (order of the two half-removals); non-trivial = at least 3 operations changed "
+    "injected per-channel refusals (order of the two half-removals), lifecycle (pickle round trips, by-value "
+    "executors, injected nodes, for-node rebuilds; every channel created on the way joins the scanned table); non-trivial = at least 3 operations changed "
     "some connection list; distinct by canonical case"
 )
 TRUSTED = [
-    "model ConnOps.connectG/disconnectG (and Conn.connect1/disconnect1) transcribe Channel.connect/disconnect; "
-    "run/pull/replace_child/add_child are observed on the implementation and re-synchronised into the model "
-    "(their rewiring is C01/C11/C14's subject), the oracle still scans every state they leave",
+    "model ConnOps.connectG/disconnectG (and Conn.connect1/disconnect1) transcribe Channel.connect/disconnect, "
+    "copyConnsN/copyIoN the copies, replaceConn/seat Composite.replace_child with _seat_replacement as its sequence "
+    "of list assignments, dagAttempt the flow derivation's save/cut/restore, reorder the firing-order assignment",
+    "replace_child: which guard that does not look at connections refused (parent, ancestry, type, value links) is "
+    "observed; the precondition of the seating (`seatable`) is checked by the model at run time",
+    "run / pull / add_child / executors (by reference, by value) / pickle round trips / injected nodes / for-node "
+    "rebuilds: the SEQUENCE of outermost connect/disconnect calls, flow derivations and firing-order assignments is "
+    "recorded by class-level wrappers and replayed in the model; the model does not derive that sequence",
     "validity of a typed pair is computed by the harness with plain issubclass, independent of the library",
     "which child channels a workflow's data panels expose is read off the live panels before and after every "
     "owner-level operation (panel composition is C15's subject)",
 ]
-ASSUMPTIONS = ["channel identity = Python object identity; lists are only mutated through connect/disconnect"]
+ASSUMPTIONS = ["channel identity = Python object identity",
+               "connection lists are written only by connect/disconnect and the three modelled assignment sites "
+               "(_seat_replacement, the flow-derivation recovery, _restore_firing_order): checked by replaying every "
+               "recorded call sequence, not assumed"]
 
 KINDS = {"inputs": "di", "outputs": "do", "sin": "si", "sout": "so"}
 CONJ = {"inputs": "outputs", "outputs": "inputs", "sin": "sout", "sout": "sin"}
@@ -262,12 +278,17 @@ class _G:
                              rng.choice(CANDS + [12]) if rng.random() < 0.85 else rng.randrange(N_OBJ)])
         elif r < 0.92:
             self.state_op()
-        elif r < 0.95:
+        elif r < 0.945:
             self.ops.append(["runwf", rng.choice(WFS)])
-        elif r < 0.98:
+        elif r < 0.97:
             self.ops.append(["pull", rng.randrange(2, N_OBJ)])
-        else:
+        elif r < 0.98:
             self.ops.append(["runnode", rng.randrange(2, N_OBJ)])
+        elif r < 0.99:
+            self.ops.append(["roundtrip", rng.choice(COMPOSITES)])
+        else:
+            self.ops.append(rng.choice([["startv", 5], ["inject", rng.randrange(2, N_OBJ), rng.randrange(3),
+                                                         rng.randrange(4), rng.randrange(N_OBJ)]]))
 
     def odisc(self, obj=None):
         rng = self.rng
@@ -491,6 +512,43 @@ def _gen_running(rng, tier):
     return g.case("running")
 
 
+def _gen_lifecycle(rng, tier):
+    """what creates, copies and swaps whole nodes behind the user's back: pickle round trips of composites,
+    by-value executors (the composite that comes back replaces its children), injected nodes (operators on
+    output channels), for-nodes rebuilding their body — in between ordinary editing, with connections into the
+    macro's body and across the workflows"""
+    g = _G(rng, nonstrict=[])
+    lay = g.lay
+    g.wire_some(rng.randint(3, 9), cross=0.5)
+    # connections between the macro's body and the outside, and inside the body
+    for _ in range(rng.randint(0, 3)):
+        c = rng.choice(lay.own(6) + lay.own(7))
+        g.connect_pair(c, rng.choice(g.conj_of(c)))
+    for _ in range(rng.randint(2, 6)):
+        r = rng.random()
+        if r < 0.22:
+            g.ops.append(["roundtrip", rng.choice(COMPOSITES)])
+        elif r < 0.42:
+            k = rng.choice([5, 5, 5] + LEAVES[:6])
+            g.ops.append(["startv", k])
+            for _ in range(rng.randint(0, 2)):
+                g.any_op()
+            g.ops.append(["finish", k])
+        elif r < 0.58:
+            g.ops.append(["inject", rng.randrange(2, N_OBJ), rng.randrange(3), rng.randrange(4), rng.randrange(N_OBJ)])
+        elif r < 0.7:
+            g.ops.append(["fornode", rng.choice(WFS), rng.randrange(6), rng.randrange(2 * N_OBJ)])
+        elif r < 0.8:
+            g.ops.append(["runwf", rng.choice(WFS)])
+        elif r < 0.88:
+            g.odisc(rng.choice(COMPOSITES))
+        else:
+            g.any_op()
+    for _ in range(rng.randint(0, 3)):
+        g.any_op()
+    return g.case("lifecycle")
+
+
 def _gen_inject(rng, tier):
     """fault injection: chosen channel objects refuse `connect`/`disconnect` at entry (an instance-level
     wrapper installed by the harness). Checks the ORDER of the two half-removals of the real
@@ -550,9 +608,9 @@ def _gen_exhaustive(rng):
 
 def gen_cases(rng, tier):
     quick = tier == "quick"
-    for fam, n in ((_gen_general, 160 if quick else 2500), (_gen_owner, 70 if quick else 900),
-                   (_gen_copy, 130 if quick else 1800), (_gen_running, 70 if quick else 900),
-                   (_gen_inject, 60 if quick else 600)):
+    for fam, n in ((_gen_general, 120 if quick else 2000), (_gen_owner, 50 if quick else 900),
+                   (_gen_copy, 100 if quick else 1800), (_gen_running, 50 if quick else 900),
+                   (_gen_inject, 40 if quick else 600), (_gen_lifecycle, 40 if quick else 500)):
         for _ in range(n):
             yield fam(rng, tier)
     if not quick:
@@ -628,6 +686,12 @@ def corpus():
         ["odisc", 1, "node"],
         ["finish", 3],
     ])
+    # a macro comes back from a by-value executor while one of its body nodes is wired to the outside (KF-C12-1/2)
+    yield mk(["TA", "TA"], [
+        ["connect", "method", ("b", "inputs", "u"), ("ma", "outputs", "oi")],
+        ["startv", 5],
+        ["finish", 5],
+    ])
     # refused copies with a connection that existed before (witnesses of the undo-log finding)
     yield mk(["TA", "TA"], [
         ["connect", "method", ("a", "inputs", "i"), ("b", "outputs", "oi")],
@@ -685,8 +749,13 @@ def _channels(objs):
     return out
 
 
+def _items(snap):
+    """(channel, list) of the non-empty lists; snapshots travel sparse ({channel: list}), the oracle works on dense lists"""
+    return sorted(snap.items()) if isinstance(snap, dict) else [(i, l) for i, l in enumerate(snap) if l]
+
+
 def _fmt_conns(snap):
-    toks = [f"{i}:[{','.join(map(str, l))}]" for i, l in enumerate(snap) if l]
+    toks = [f"{i}:[{','.join(map(str, l))}]" for i, l in _items(snap)]
     return " ".join(toks) if toks else "none"
 
 
@@ -699,9 +768,93 @@ def _fmt_flags(fl):
         "[" + ",".join(map(str, s)) + "]" for s in fl["sets"])
 
 
+TRACED = ("readd", "start", "startv", "finish", "boom", "runnode", "runwf", "pull", "roundtrip", "inject", "fornode")
+
+
+class _Trace:
+    """primitive connection edits seen while an operation outside the modelled alphabet runs: outermost
+    `Channel.connect` / `Channel.disconnect` calls, flow derivations (begin / failed), firing-order assignments"""
+
+    def __init__(self):
+        self.on = False
+        self.depth = 0
+        self.log = []
+        self.note = None  # called with every channel a traced call touches: the table learns it on the spot
+
+
 def run_impl(case):
+    import pyiron_workflow.topology as topo
+    from pyiron_workflow.channels import Channel
+    from pyiron_workflow.nodes.composite import Composite
+
+    T = _Trace()
+    o_connect, o_disconnect = Channel.connect, Channel.disconnect
+    o_recovery = topo._set_new_run_connections_with_fallback_recovery
+    o_order = Composite._restore_firing_order
+
+    def connect(self, *others):
+        if T.on and T.depth == 0:
+            T.log.append(("c", self, others))
+            if T.note:
+                for ch in (self, *others):
+                    T.note(ch)
+        T.depth += 1
+        try:
+            return o_connect(self, *others)
+        finally:
+            T.depth -= 1
+
+    def disconnect(self, *others):
+        if T.on and T.depth == 0:
+            T.log.append(("d", self, others))
+            if T.note:
+                for ch in (self, *others):
+                    T.note(ch)
+        T.depth += 1
+        try:
+            return o_disconnect(self, *others)
+        finally:
+            T.depth -= 1
+
+    def recovery(creator, nodes):
+        if T.on:
+            cut = []
+            for n in nodes.values():
+                cut.append(n.signals.output.ran)
+                cut += [n.signals.input[lab] for lab in ("run", "accumulate_and_run") if lab in n.signals.input.labels]
+            T.log.append(("dagbegin", cut))
+        try:
+            return o_recovery(creator, nodes)
+        except Exception:
+            if T.on:
+                T.log.append(("dagfail",))
+            raise
+
+    def restore_order(self, firing_order):
+        r = o_order(self, firing_order)
+        if T.on:
+            for child in self:
+                for out in child.signals.output:
+                    T.log.append(("order", out, list(out.connections)))
+        return r
+
+    Channel.connect, Channel.disconnect = connect, disconnect
+    topo._set_new_run_connections_with_fallback_recovery = recovery
+    Composite._restore_firing_order = restore_order
+    try:
+        return _run_impl(case, T)
+    finally:
+        Channel.connect, Channel.disconnect = o_connect, o_disconnect
+        topo._set_new_run_connections_with_fallback_recovery = o_recovery
+        Composite._restore_firing_order = o_order
+
+
+def _run_impl(case, T):
+    import pickle
+
     import pyiron_workflow.nodes.composite as comp
-    from pyiron_workflow.channels import ChannelConnectionError
+    from pyiron_workflow.channels import ChannelConnectionError, InputData, InputSignal, OutputData
+    from pyiron_workflow.workflow import Workflow
     from pyiron_workflow.io import ConnectionCopyError
     from pyiron_workflow.node import Node
 
@@ -719,15 +872,115 @@ def run_impl(case):
     sched = execsim.Scheduler([])
     locked: set[int] = set()
     wrapped: set[int] = set()
+    byvalue: set[int] = set()  # composites / nodes in flight on a by-value executor
+    xrows: list = []     # channels registered after the start: (owner index, panel, label)
+    xowners: list = []   # labels of the owners registered after the start
+    keep: list = []      # objects the harness made on the way (copies, injected nodes, loops)
+
+    def _panel_of(ch):
+        if isinstance(ch, InputData):
+            return "inputs"
+        if isinstance(ch, OutputData):
+            return "outputs"
+        return "sin" if isinstance(ch, InputSignal) else "sout"
+
+    def register(node):
+        """a live owner the table does not know yet: all its panel channels get the next ids"""
+        new = []
+        if id(node) in oindex:
+            return new
+        oi = len(objs)
+        objs.append(node)
+        oindex[id(node)] = oi
+        xowners.append(str(getattr(node, "label", "?")))
+        panels = []
+        if not isinstance(node, Workflow):
+            panels += [("inputs", node.inputs), ("outputs", node.outputs)]
+        panels += [("sin", node.signals.input), ("sout", node.signals.output)]
+        for pname, io in panels:
+            for label, ch in io.items():
+                if id(ch) not in index:
+                    index[id(ch)] = len(obj)
+                    new.append(len(obj))
+                    obj.append(ch)
+                    xrows.append((oi, pname, label))
+        return new
+
+    def discover():
+        """close the table under `children` and under `connections`: every channel any live list mentions is scanned"""
+        new = []
+        again = True
+        while again:
+            again = False
+            for o in list(objs):
+                # (no getattr probing: a single-output node answers unknown attributes by injecting a node)
+                if isinstance(o, comp.Composite):
+                    for kid in list(o.children.values()):
+                        if id(kid) not in oindex:
+                            new += register(kid)
+                            again = True
+            for ch in list(obj):
+                for p in ch.connections:
+                    if id(p) not in index:
+                        new += register(p.owner)
+                        if id(p) not in index:  # a channel its owner's panels no longer hold
+                            index[id(p)] = len(obj)
+                            new.append(len(obj))
+                            obj.append(p)
+                            xrows.append((oindex[id(p.owner)], _panel_of(p), p.label))
+                        again = True
+        return new
+
+    def note(ch):
+        if id(ch) in index or not hasattr(ch, "connections"):
+            return
+        try:
+            register(ch.owner)
+        except Exception:  # noqa: BLE001 - an owner still under construction
+            pass
+        if id(ch) not in index:
+            if id(ch.owner) not in oindex:
+                oindex[id(ch.owner)] = len(objs)
+                objs.append(ch.owner)
+                xowners.append(str(vars(ch.owner).get("_label", "?")))
+            index[id(ch)] = len(obj)
+            obj.append(ch)
+            xrows.append((oindex[id(ch.owner)], _panel_of(ch), ch.label))
+
+    T.note = note
+
+    def trace_lines():
+        def cid(ch):
+            return index.get(id(ch), -1)
+
+        out = []
+        for e in T.log:
+            touched = [e[1], *e[2]] if e[0] in ("c", "d", "order") else (e[1] if e[0] == "dagbegin" else [])
+            if touched and all(id(x) not in index for x in touched):
+                # objects that lived only inside the operation (the copy a by-value executor ran on, ...)
+                out.append("#transient")
+                continue
+            if e[0] == "c":
+                out.append("t-connect " + " ".join(str(cid(x)) for x in (e[1], *e[2])))
+            elif e[0] == "d":
+                out.append("t-disconnect " + " ".join(str(cid(x)) for x in (e[1], *e[2])))
+            elif e[0] == "order":
+                out.append("t-order " + " ".join(str(cid(x)) for x in (e[1], *e[2])))
+            elif e[0] == "dagbegin":
+                out.append("t-dagbegin " + " ".join(str(cid(x)) for x in e[1]))
+            elif e[0] == "dagfail":
+                out.append("t-dagfail")
+        return out
 
     def snapshot():
-        return [[index.get(id(c), -1) for c in ch.connections] for ch in obj]
+        return {c: [index.get(id(p), -1) for p in ch.connections] for c, ch in enumerate(obj) if ch.connections}
 
     def parents():
-        return [oindex.get(id(o.parent), -2) if getattr(o, "parent", None) is not None else -1 for o in objs]
+        # (read the instance dictionaries: a single-output node answers unknown attributes by injecting nodes)
+        return [oindex.get(id(vars(o).get("_parent")), -2) if vars(o).get("_parent") is not None else -1 for o in objs]
 
     def runstate():
-        return "".join("r" if o.running else ("f" if o.failed else "i") for o in objs)
+        return "".join("r" if vars(o).get("running") else ("f" if vars(o).get("failed") else "i") for o in objs)
 
     def members(X):
         return [[index.get(id(c), -1) for c in g] for g in (X.inputs, X.outputs, X.signals.input, X.signals.output)]
@@ -779,6 +1032,9 @@ def run_impl(case):
             raise execsim.Stuck("run budget exceeded")
         return orig_run(self, *a, **k)
 
+    counted_run.__name__ = "run"  # nodes built while it is installed look their callback up by name
+    counted_run.__qualname__ = "Node.run"
+
     def sleep(*_a):
         if not sched.jobs:
             raise execsim.Stuck("idle with nothing outstanding")
@@ -813,18 +1069,27 @@ def run_impl(case):
     for op in case["ops"]:
         res, rep, fl, modelled = "ok", None, None, True
         st = {"op": op}
+        T.log = []
+        T.depth = 0
+        T.on = op[0] in TRACED
+        n_before = len(obj)
         try:
             kind = op[0]
             if kind in ("connect", "disconnect", "copyconns") and not all(
                     isinstance(x, int) and 0 <= x < lay.n for x in (op[2:] if kind == "connect" else op[1:])):
                 raise _Malformed()
-            if kind in ("odisc", "query", "remove", "start", "finish", "runnode", "boom", "pull", "runwf") and not (
+            if kind in ("odisc", "query", "remove", "start", "startv", "finish", "runnode", "boom", "pull", "runwf",
+                        "roundtrip", "inject", "fornode") and not (
                     isinstance(op[1], int) and 0 <= op[1] < N_OBJ):
                 raise _Malformed()
             if kind in ("odisc", "query"):
                 st["members_pre"] = members(objs[op[1]])
                 st["children_pre"] = ([oindex.get(id(ch), -1) for ch in objs[op[1]].children.values()]
                                       if op[1] in COMPOSITES else [])
+                # `Composite.disconnect_run`: the run / accumulate_and_run channels of the children as they are now
+                st["crun_chans"] = ([index.get(id(kid.signals.input[lab]), -1) for kid in objs[op[1]].children.values()
+                                     for lab in ("run", "accumulate_and_run") if lab in kid.signals.input.labels]
+                                    if op[1] in COMPOSITES else [])
             if kind == "connect":
                 how, a, bs = op[1], op[2], op[3:]
                 A = obj[a]
@@ -933,21 +1198,26 @@ def run_impl(case):
                     res = "skip"
                 else:
                     st["cand_clean"] = (getattr(objs[op[2]], "parent", None) is None and not objs[op[2]].connected)
-                    st["cand_connected"] = bool(objs[op[2]].connected)
+                    # connected through its OWN channels (a workflow candidate is also "connected" through the child
+                    # channels it exposes: that refusal counts among the guards the model takes as observed)
+                    st["cand_connected"] = any(prev.get(c) for c in lay.own(op[2]))
                     mine = set(lay.own(op[1]))
-                    st["old_conn"] = any(prev[c] for c in mine)
-                    st["old_self"] = any(b in mine for c in mine for b in prev[c])
+                    st["old_conn"] = any(prev.get(c) for c in mine)
+                    st["old_self"] = any(b in mine for c in mine for b in prev.get(c, []))
                     X.parent.replace_child(X, objs[op[2]])
-            elif kind == "start":
+            elif kind in ("start", "startv"):
                 modelled = False
                 X = objs[op[1]]
-                if op[1] not in LEAVES or X.running:
+                if (op[1] not in LEAVES and not (kind == "startv" and op[1] == 5)) or X.running:
                     res = "skip"
                 else:
-                    X.executor = execsim.CtlExecutor(sched)
+                    # startv: by value — callable, arguments and result cross an emulated process boundary
+                    X.executor = execsim.CtlExecutor(sched, "ctl" if kind == "start" else "ctl-cloudpickle")
                     r = guarded(lambda: X.run())
                     if not X.running:
                         X.executor = None
+                    elif kind == "startv":
+                        byvalue.add(op[1])
             elif kind == "finish":
                 modelled = False
                 if not finish(op[1]):
@@ -972,6 +1242,48 @@ def run_impl(case):
             elif kind == "pull":
                 modelled = False
                 guarded(lambda: (sched.drain(), objs[op[1]].pull()))
+            elif kind == "roundtrip":
+                modelled = False
+                if op[1] not in COMPOSITES:
+                    raise _Malformed()
+                copy = pickle.loads(pickle.dumps(objs[op[1]]))
+                copy.recovery = None
+                keep.append(copy)
+                register(copy)
+            elif kind == "inject":
+                modelled = False
+                X = objs[op[1]]
+                if op[1] in WFS or len(X.outputs) == 0:
+                    res = "skip"
+                else:
+                    out = list(X.outputs)[op[2] % len(X.outputs)]
+                    made = (out + 1) if op[3] % 2 == 0 else out[0]
+                    keep.append(made)
+                    if op[3] >= 2:  # and wire the injected node onwards
+                        tgt = objs[op[4] % N_OBJ]
+                        if op[4] % N_OBJ not in WFS and "u" in tgt.inputs.labels:
+                            tgt.inputs.u = made
+            elif kind == "fornode":
+                modelled = False
+                from pyiron_workflow.nodes.for_loop import for_node
+
+                from . import nodes_c12 as N
+
+                if op[1] not in WFS:
+                    raise _Malformed()
+                loop = for_node(body_node_class=getattr(N, "TB"), iter_on=("i",), i=list(range(1 + op[2] % 3)),
+                                label=f"loop{len(keep)}")
+                loop.recovery = None
+                keep.append(loop)
+                objs[op[1]].add_child(loop)
+                if op[3] % 2:
+                    src = objs[2 + op[3] % (N_OBJ - 2)]
+                    if "oi" in getattr(src.outputs, "labels", []):
+                        loop.inputs.s = src.outputs.os if "os" in src.outputs.labels else src.outputs.oi
+                guarded(lambda: loop.run())
+                if op[2] % 2:  # a second run with another length rebuilds the body
+                    loop.inputs.i.value = list(range(2 + op[2] % 2))
+                    guarded(lambda: loop.run())
             elif kind == "lock":
                 modelled = False
                 wrap(op[1])
@@ -1001,6 +1313,19 @@ def run_impl(case):
         except Exception as e:  # noqa: BLE001
             res = f"exc:{type(e).__name__}"
             st["exc"] = type(e).__name__
+        T.on = False
+        merged = [k for k in sorted(byvalue) if not vars(objs[k]).get("running")]
+        if merged:
+            st["merged"] = merged  # came back from the by-value executor during this operation
+            byvalue.difference_update(merged)
+        if op[0] in TRACED and res not in ("skip", "malformed"):
+            before = n_before
+            try:
+                discover()
+            except Exception as e:  # noqa: BLE001
+                st["discover_exc"] = type(e).__name__
+            st["new_chans"] = [[c, KINDS[xrows[c - lay.n][1]], xrows[c - lay.n][0]] for c in range(before, len(obj))]
+            st["trace"] = trace_lines()
         if res.startswith("exc:") or res in ("typeErr", "connErr", "locked"):
             rep = None
         if op[0] in ("odisc", "query") and res != "malformed":
@@ -1040,6 +1365,11 @@ def run_impl(case):
                 stats["replace-seated-selfloop"] = stats.get("replace-seated-selfloop", 0) + 1
         if s["op"][0] in ("copyio", "replace") and s["res"] not in ("ok", "skip"):
             stats["copy-refused"] = stats.get("copy-refused", 0) + 1
+        for line in s.get("trace") or []:
+            key = "trace:" + (line.split()[0][2:] if line.startswith("t-") else "transient")
+            stats[key] = stats.get(key, 0) + 1
+        if s.get("new_chans"):
+            stats["channels-registered-on-the-way"] = stats.get("channels-registered-on-the-way", 0) + len(s["new_chans"])
         if s["res"] == "locked":
             stats["injected-refusal"] = stats.get("injected-refusal", 0) + 1
             if s.get("torn"):
@@ -1049,7 +1379,8 @@ def run_impl(case):
     obs = []
     for s in states:
         obs.extend(_lines(s))
-    return {"obs": obs, "init": init, "states": states, "changed": changed, "stats": stats}
+    return {"obs": obs, "init": init, "states": states, "changed": changed, "stats": stats,
+            "xrows": [list(x) for x in xrows], "xowners": xowners}
 
 
 class _Malformed(Exception):
@@ -1061,6 +1392,8 @@ def _lines(s):
     if s["res"] == "malformed":
         return ["bad-op"]
     out = []
+    if s["op"][0] in TRACED:
+        return [f"trace {_fmt_conns(s['snap'])}"]
     if s["op"][0] == "replace":
         out.append(f"{_replace_class(s)} - {_fmt_conns(s['snap'])}")
     elif s["op"][0] != "query":
@@ -1087,8 +1420,8 @@ def nontrivial(case, r):
 
 
 def _is_modelled(st):
-    if st["op"][0] == "replace":
-        return st["res"] != "skip"
+    if st["op"][0] == "replace" or st["op"][0] in TRACED:
+        return st["res"] not in ("skip", "malformed")
     return st["modelled"] and st["res"] != "skip" and not st["res"].startswith("exc:")
 
 
@@ -1103,7 +1436,7 @@ def _copyio_pairs(lay, me, other):
 
 
 def _setconns(snap):
-    return ["clearconns"] + [f"setconns {c} " + " ".join(map(str, l)) for c, l in enumerate(snap) if l]
+    return ["clearconns"] + [f"setconns {c} " + " ".join(map(str, l)) for c, l in _items(snap)]
 
 
 def model_input(case, impl=None):
@@ -1125,8 +1458,15 @@ def model_input(case, impl=None):
             lines.append(f"{op[0]} {op[1]}")
             continue
         if not _is_modelled(st):
-            # not part of this model: re-synchronise from the observed state
+            # nothing happened (skipped), or an injected fault left the alphabet: take the observed state
             lines += _setconns(st["snap"])
+            continue
+        if op[0] in TRACED:
+            # outside the modelled alphabet: replay the primitive calls it was seen to make, compare the outcome
+            for c, k, o in st.get("new_chans", []):
+                lines.append(f"chan {c} {k} {o}")
+            lines += [t for t in st.get("trace", []) if not t.startswith("#")]
+            lines.append("t-show")
             continue
         if op[0] == "connect":
             a, bs = op[2], op[3:]
@@ -1160,9 +1500,7 @@ def model_input(case, impl=None):
                 if what == "run":
                     cs = [c for c in SI if lay.rows[c][2] in ("run", "accumulate_and_run")]
                 elif what == "crun":
-                    cs = []
-                    for k in st["children_pre"]:
-                        cs += [c for c in lay.panel(k, "sin") if lay.rows[c][2] in ("run", "accumulate_and_run")]
+                    cs = list(st["crun_chans"])
                 else:
                     cs = {"inputs": I, "outputs": O, "sin": SI, "sout": SO, "signals": SI + SO,
                           "node": I + O + SI + SO}[what]
@@ -1205,10 +1543,39 @@ def _pairset(snap):
     return {(a, b) for a, l in enumerate(snap) for b in l}
 
 
+class _DynLayout:
+    """the static table plus the channels registered while the case ran"""
+
+    def __init__(self, lay, r):
+        self.base = lay
+        self.rows = list(lay.rows) + [(o, p, l, None) for o, p, l in r.get("xrows", [])]
+        self.xowners = r.get("xowners", [])
+
+    def own(self, obj):
+        return [c for c, row in enumerate(self.rows) if row[0] == obj]
+
+    def __getattr__(self, k):
+        return getattr(self.base, k)
+
+
+def _oname(lay, o):
+    if o < N_OBJ:
+        return OBJS[o][3]
+    xs = getattr(lay, "xowners", [])
+    return f"{xs[o - N_OBJ]}#{o}" if o - N_OBJ < len(xs) else f"#{o}"
+
+
 def oracle(case, r):
     if "states" not in r:
         return []
-    lay = layout_of(case)
+    lay = _DynLayout(layout_of(case), r)
+    n_all = len(lay.rows)
+
+    def dense(snap):
+        return [snap.get(c, []) for c in range(n_all)] if isinstance(snap, dict) else snap
+
+    r = dict(r, init=dict(r["init"], snap=dense(r["init"]["snap"])),
+             states=[dict(st, snap=dense(st["snap"])) for st in r["states"]])
     fails = []
     prev = r["init"]["snap"]
     prev_parents = r["init"]["parents"]
@@ -1216,8 +1583,8 @@ def oracle(case, r):
     injected = False
     fails += _invariants(lay, prev, -1, ["init"])
     for k, st in enumerate(r["states"]):
-        if fails:
-            break
+        if any(f["signature"].get("cause") != "by-value-merge" for f in fails):
+            break  # (the listed merge-back finding does not hide what comes after it)
         snap, op, res = st["snap"], st["op"], st["res"]
         if op[0] == "lock":
             injected = True  # from here on the harness itself tears connections apart: correspondence only
@@ -1254,8 +1621,7 @@ def oracle(case, r):
             if what == "run":
                 mine = [c for c in SI if lay.rows[c][2] in ("run", "accumulate_and_run")]
             elif what == "crun":
-                mine = [c for kid in st["children_pre"] for c in lay.panel(kid, "sin")
-                        if lay.rows[c][2] in ("run", "accumulate_and_run")]
+                mine = list(st["crun_chans"])
             else:
                 mine = {"inputs": I, "outputs": O, "sin": SI, "sout": SO, "signals": SI + SO,
                         "node": I + O + SI + SO}[what]
@@ -1279,20 +1645,21 @@ def oracle(case, r):
             fails += _flags_agree(lay, k, op, st, snap, members0)
         if op[0] in ("odisc", "query") and st.get("flags_exc"):
             fails.append(_f("owner-observers-raise", k, op, st["flags_exc"]))
-        if op[0] in ("remove", "replace") and res != "skip":
+        if (op[0] in ("remove", "replace") or op[0] in TRACED) and res != "skip":
             # whoever lost its parent in this operation is not pointed at by anybody, and holds nothing
             for o, (p0, p1) in enumerate(zip(prev_parents, st["parents"])):
                 if p0 != -1 and p1 == -1:
                     mine_set = set(lay.own(o))
+                    cause = "by-value-merge" if p0 in (st.get("merged") or []) else None
                     for a, l in enumerate(snap):
                         if a not in mine_set and mine_set & set(l):
                             fails.append(_f("removed-node-still-referenced", k, op,
-                                            f"{OBJS[o][3]} lost its parent but channel {a} ({_name(lay, a)}) lists "
-                                            f"{sorted(mine_set & set(l))}", res=res.split(':')[0]))
+                                            f"{_oname(lay, o)} lost its parent but channel {a} ({_name(lay, a)}) lists "
+                                            f"{sorted(mine_set & set(l))}", res=res.split(':')[0], cause=cause))
                         elif a in mine_set and l:
                             fails.append(_f("removed-node-still-connected", k, op,
-                                            f"{OBJS[o][3]} lost its parent but its channel {a} ({_name(lay, a)}) "
-                                            f"lists {l}", res=res.split(':')[0]))
+                                            f"{_oname(lay, o)} lost its parent but its channel {a} ({_name(lay, a)}) "
+                                            f"lists {l}", res=res.split(':')[0], cause=cause))
             if op[0] == "remove" and res == "ok":
                 want = {frozenset((a, b)) for a in lay.own(op[1]) for b in prev[a]}
                 fails += _exact(k, op, prev, snap, want, None, destroyed, created)
@@ -1383,8 +1750,10 @@ def _flags_agree(lay, k, op, st, snap, members0):
 def _name(lay, c):
     if c < 0:
         return "?"
+    if c >= len(lay.rows):
+        return "?"
     o, p, l, _h = lay.rows[c]
-    return f"{OBJS[o][3]}.{p}.{l}"
+    return f"{_oname(lay, o)}.{p}.{l}"
 
 
 def _f(clause, k, op, detail, **extra):
